@@ -16,13 +16,26 @@ all answers of one (kind, molecule) from all processes/objects/repetitions are i
 snapshot equals the one taken before the call.  A worker whose set-up fails (FGQuery construction,
 molecule graph) fails its case; a job without an answer is a machinery failure.
 
+INPUTS OF EVERY FORM the entry point accepts (tags input:*): graphs (RDKit / parser / sparse ids), the SMILES STRING itself
+(`get(str)`), ITS graphs of reactions built by the library's own `get_its` with their (g, h) bond labels as tuples, as LISTS
+and restored from JSON (node_link_data -> json -> node_link_graph), the reaction SMILES string (for which the library itself
+calls `get_its`).  The snapshots are TYPE-SENSITIVE (list vs tuple vs numpy scalar).  ODD INPUTS (tags odd-input:*) — values
+on which `get` raises or takes an unusual path: reaction SMILES on a query that needs hydrogens, invalid / empty SMILES, an
+empty graph, non-graph values, graphs without symbol / bond labels, ITS graphs on a hydrogen-requiring query — are
+interleaved with the normal molecules on the long-lived objects of the MIXED processes (and of half of the default
+kind's processes); an exception IS that input's answer (compared across processes like any other), and the answers for
+the normal molecules must equal those of the PURE processes, which never see an odd input.
+CONFIGURATIONS IN EVERY FORM (tags cfg-form:*): a list of FGConfig objects, a list of dictionaries (anti-patterns written as
+lists / one-element anti-patterns as plain strings), a ready FGConfigProvider, a single FGConfig, positional constructor
+arguments, the default collection named explicitly.  An alternative form (of the input or of the configuration) must give
+the answers of the canonical form (`C06 det … forms` cases: all answers of both forms identical).
+
 The logic part (cache, set-iteration order, sort keys) is modelled (Model/C06.lean, Model/C07.lean)
 and proved (Proofs/C06*.lean; `C06.input_untouched` is `rfl` and the functional reading of
 `C06.deterministic` is typing — neither is evidence about the code); the model's ORDERED tree (roots
 list, children lists) is compared with the trees the processes build (`C06 tree`), and the composed
 model with `FGQuery(config=…).get` (`C06 e2e`).
 """
-import hashlib
 import json
 import os
 import time
@@ -98,7 +111,68 @@ def spec_for(rng, s, fam):
 
 
 def digest(snap):
-    return hashlib.sha1(json.dumps(snap).encode()).hexdigest()[:20]
+    return worker_seed.digest(snap)
+
+
+# share of the cases that goes through each ALTERNATIVE form of an input / a configuration (see the module docstring)
+ALT_SHARE = 0.15
+
+# mapped reaction SMILES (the first one is the documentation's example); their ITS graphs are query inputs
+RXNS = ["[C:1][C:2](=[O:3])[O:4][C:5].[O:6]>>[C:1][C:2](=[O:3])[O:6].[O:4][C:5]",
+        "[CH3:1][Cl:2].[OH2:3]>>[CH3:1][OH:3].[ClH:2]",
+        "[CH3:1][C:2](=[O:3])[Cl:4].[NH2:5][CH3:6]>>[CH3:1][C:2](=[O:3])[NH:5][CH3:6].[ClH:4]",
+        "[CH3:1][CH:2]=[O:3].[OH2:4]>>[CH3:1][CH:2]([OH:3])[OH:4]",
+        "[CH3:1][C:2](=[O:3])[OH:4].[CH3:5][OH:6]>>[CH3:1][C:2](=[O:3])[O:6][CH3:5].[OH2:4]",
+        "CC(=O)[OH:1].[CH3:2]O>>CC(=O)[O:1][CH3:2]",
+        "[CH3:1][CH2:2][Br:3]>>[CH2:1]=[CH2:2].[BrH:3]",
+        "[CH2:1]=[CH2:2].[CH2:3]=[CH:4][CH:5]=[CH2:6]>>[CH2:1]1[CH2:2][CH2:3][CH:4]=[CH:5][CH2:6]1"]
+# a configuration whose patterns describe bond CHANGES (queried without hydrogens, as the documentation does)
+ITS_CFGS = [{"name": "carbonyl-AE", "pattern": "C(=O)(<0,1>R)<1,0>R"}, {"name": "formed", "pattern": "R<0,1>R"},
+            {"name": "broken", "pattern": "R<1,0>R"}, {"name": "co-order-up", "pattern": "C<1,2>O"},
+            {"name": "co-order-down", "pattern": "C<2,1>O"}]
+# inputs on which `get` raises or takes an unusual path
+ODD = [({"kind": "string", "s": "CC>>CC"}, "'CC>>CC'@get(str)", "reaction-smiles-unmapped"),
+       ({"kind": "string", "s": "CCO>>CC=O"}, "'CCO>>CC=O'@get(str)", "reaction-smiles-unmapped"),
+       ({"kind": "string", "s": "C(C"}, "'C(C'@get(str)", "invalid-smiles"),
+       ({"kind": "string", "s": ""}, "''@get(str)", "empty-string"),
+       ({"kind": "empty"}, "nx.Graph()", "empty-graph"),
+       ({"kind": "value", "v": 42}, "42@get(value)", "non-graph-value"),
+       ({"kind": "value", "v": None}, "None@get(value)", "non-graph-value"),
+       ({"kind": "value", "v": ["C", "O"]}, "['C','O']@get(value)", "non-graph-value"),
+       ({"kind": "graph", "nodes": [[0, "C"], [1, None], [2, "O"]], "edges": [[0, 1, 1], [1, 2, 1]]}, "C-?-O(symbol=None)", "graph-without-symbol"),
+       ({"kind": "graph", "nodes": [[0, "C"], [1, None], [2, "O"]], "edges": [[0, 1, 1], [1, 2, 1]], "no_symbol_attr": True},
+        "C-?-O(no symbol attribute)", "graph-without-symbol"),
+       ({"kind": "graph", "nodes": [[0, "C"], [1, "O"]], "edges": [[0, 1, None]], "no_bond_attr": True}, "C?O(no bond attribute)", "graph-without-bond"),
+       ({"kind": "graph", "nodes": [[0, "C"], [1, "O"]], "edges": [[0, 1, None]]}, "C?O(bond=None)", "graph-without-bond")]
+
+
+def gen_rxn(rng, s):
+    """a fully mapped reaction SMILES made from a molecule: one bond is broken (or, reversed, formed)"""
+    from rdkit import Chem
+    m = Chem.MolFromSmiles(s)
+    if m is None or m.GetNumBonds() == 0:
+        return None
+    for a in m.GetAtoms():
+        a.SetAtomMapNum(a.GetIdx() + 1)
+    rw = Chem.RWMol(m)
+    b = rng.choice(list(m.GetBonds()))
+    rw.RemoveBond(b.GetBeginAtomIdx(), b.GetEndAtomIdx())
+    try:
+        prod = rw.GetMol()
+        Chem.SanitizeMol(prod)
+        a, b_ = Chem.MolToSmiles(m), Chem.MolToSmiles(prod)
+    except Exception:
+        return None
+    return (a + ">>" + b_) if rng.random() < 0.5 else (b_ + ">>" + a)
+
+
+def its_mols(rsmi, origin):
+    """one reaction in all the forms in which its ITS graph reaches `get` -> [(spec, id, tags, form)]"""
+    base = [origin, "its"]
+    return [({"kind": "its", "s": rsmi, "labels": "tuple"}, rsmi + "@its", base + ["input:its-graph", "its-labels:tuple"], "its-tuple"),
+            ({"kind": "its", "s": rsmi, "labels": "list"}, rsmi + "@its[list labels]", base + ["input:its-graph", "its-labels:list"], "its-list"),
+            ({"kind": "its", "s": rsmi, "labels": "json"}, rsmi + "@its[json round trip]", base + ["input:its-graph-from-json", "its-labels:list"], "its-json"),
+            ({"kind": "string", "s": rsmi}, "'%s'@get(str)" % rsmi, base + ["input:reaction-smiles-string"], "its-string")]
 
 
 def enc_answer(a):
@@ -115,15 +189,47 @@ MAPPERS = {"default": None,                 # FGQuery's own default: Permutation
            "R-case": ["R", False]}          # PermutationMapper(wildcard="R", ignore_case=False)
 
 
-def mk_kind(kid, mapper="default", cfgs=None, rh=True, tags=()):
+def mk_kind(kid, mapper="default", cfgs=None, rh=True, tags=(), cfg_form=None, anti_as=None, ctor=None, canon=None):
+    """cfg_form / anti_as / ctor: the FORM in which the same construction parameters are handed to FGQuery
+    (worker_seed.mk_query); canon = id of the kind that is the canonical form of this one (same answers expected)"""
+    form_tags = ["cfg-form:" + (cfg_form or ("list-of-FGConfig" if cfgs is not None else "config=None"))] + \
+        (["cfg-form:anti-pattern-written-as-" + anti_as] if anti_as else []) + (["cfg-form:positional-arguments"] if ctor else []) + \
+        (["alternative-form-of-a-configuration"] if canon else [])
     return {"id": kid, "mapper_name": mapper, "mapper": MAPPERS[mapper], "cfgs": cfgs, "require_h": bool(rh),
+            "cfg_form": cfg_form, "anti_as": anti_as, "ctor": ctor, "canon": canon,
             "tags": ["kind:" + ("default-config" if cfgs is None else "user-config"), "mapper:" + mapper,
-                     "requireH=%d" % int(bool(rh))] + list(tags)}
+                     "requireH=%d" % int(bool(rh))] + form_tags + list(tags)}
+
+
+KIND_KEYS = ("id", "mapper_name", "mapper", "cfgs", "require_h", "cfg_form", "anti_as", "ctor", "canon")
+
+
+def kind_from_meta(k):
+    k = k or {}
+    return mk_kind(k.get("id", "default"), k.get("mapper_name", "default"), k.get("cfgs"), k.get("require_h", True),
+                   cfg_form=k.get("cfg_form"), anti_as=k.get("anti_as"), ctor=k.get("ctor"), canon=k.get("canon"))
 
 
 def query_job(kind, mol, fresh=True):
     return {"op": "query", "mol": mol, "obj": kind["id"], "mapper": kind["mapper"], "cfgs": kind["cfgs"],
-            "require_h": kind["require_h"], "fresh": bool(fresh)}
+            "require_h": kind["require_h"], "cfg_form": kind.get("cfg_form"), "anti_as": kind.get("anti_as"),
+            "ctor": kind.get("ctor"), "fresh": bool(fresh)}
+
+
+def alt_form_kind(rng, kd, k):
+    """the same construction parameters as kind kd, handed over in another documented form"""
+    cfgs = kd["cfgs"]
+    if cfgs is None:
+        form, anti, ctor = [("provider", None, None), ("default-dicts", "str", None), ("default-objs", None, "positional"),
+                            ("default-dicts", "list", None), (None, None, "positional")][k % 5]
+    else:
+        opts = [("dicts", "str", None), ("dicts", "list", None), ("provider", "str", None), ("objs", None, "positional")]
+        if len(cfgs) == 1 and kd.get("cfg_form") != "single":
+            opts = [("single", None, None)] + opts
+        form, anti, ctor = opts[k % len(opts)]
+    name = "%s~%s%s%s" % (kd["id"], form or "objs", "/anti-" + anti if anti else "", "/positional" if ctor else "")
+    return mk_kind(name, kd["mapper_name"], cfgs, kd["require_h"], tags=[t for t in kd["tags"] if t.startswith("user:")],
+                   cfg_form=form, anti_as=anti, ctor=ctor, canon=kd["id"])
 
 
 DEFAULT_KIND = mk_kind("default")
@@ -142,7 +248,7 @@ def run_of(seed, res):
     answers = [enc_answer(res[k]) for k in keys]
     nonempty = any(isinstance(res[k], list) and res[k] for k in keys)
     raised = any(isinstance(res[k], dict) for k in keys)
-    return [seed, answers, [digest(res[k]) for k in snaps_k]], nonempty, raised, False
+    return [seed, answers, [str(res[k]) for k in snaps_k]], nonempty, raised, False
 
 
 def det_case(mol, mol_id, tags, per_run, before, kind=None):
@@ -161,14 +267,35 @@ def det_case(mol, mol_id, tags, per_run, before, kind=None):
     cid = mol_id if kind["id"] == "default" else "%s | kind=%s" % (mol_id, kind["id"])
     req = [Atom("C06"), Atom("det"), cid, before]
     meta = {"mol": mol, "id": mol_id, "hashseeds": [s for s, _, _ in per_run],
-            "kind": {k: kind[k] for k in ("id", "mapper_name", "mapper", "cfgs", "require_h")},
+            "kind": {k: kind.get(k) for k in KIND_KEYS},
             "processes": [l for _, _, l in per_run],
+            "graph_changed": sorted({str(r.get("changed")) for _, r, _ in per_run if r.get("changed")})[:3],
             "answers_by_process": {l: [r.get("same1"), r.get("same2"), r.get("fresh")] if "same1" in r else r
                                    for _, r, l in per_run}}
     t = list(tags) + list(kind["tags"]) + (["answer:nonempty"] if any_answer else ["answer:empty"]) + \
         (["answer:raised"] if raised else []) + (["worker-setup-failed"] if setup_failed else [])
     c = Case(req, impl, meta=meta, nontrivial_key=(kind["id"], mol_id) if any_answer else None, compare_model=False, tags=t)
     return c, sigs
+
+
+def forms_case(what, a_id, b_id, runs_a, runs_b, tags, meta):
+    """an ALTERNATIVE form (b) of an input or of a configuration must give the answers of the CANONICAL form (a): one
+    `C06 det` case over the answers of both (no snapshots: purity is judged in the cases of the two forms themselves)"""
+    impl = []
+    nonempty = False
+    sigs = []
+    for seed, res, label in list(runs_a) + list(runs_b):
+        one, ne, _ra, _sf = run_of(seed, res)
+        impl.append([one[0], one[1], []])
+        sigs.append(json.dumps(one[1], sort_keys=True, default=str))
+        nonempty = nonempty or ne
+    cid = "%s == %s" % (b_id, a_id)
+    req = [Atom("C06"), Atom("det"), cid, "-"]
+    m = dict(meta)
+    m.update({"forms": what, "id": cid, "canonical": a_id, "alternative": b_id,
+              "answers_canonical": {l: r.get("same1") for _, r, l in runs_a}, "answers_alternative": {l: r.get("same1") for _, r, l in runs_b}})
+    t = list(tags) + ["forms:" + what, "answer:nonempty" if nonempty else "answer:empty"]
+    return Case(req, impl, meta=m, nontrivial_key=("forms", a_id, b_id) if nonempty else None, compare_model=False, tags=t), sigs
 
 
 def tree_view(res, inv):
@@ -223,24 +350,38 @@ def e2e_cfg_wire(d):
             None if d.get("depth") is None else int(d["depth"])]
 
 
-def e2e_case(dicts, order, mol, mol_id, rh, envseed, tags):
-    """END-TO-END correspondence: `FGQuery(config=[…], require_implicit_hydrogen=rh).get(mol)` of the code
-    against the composed model `C06.fgQueryGetM` (tree builder + adapter + query) — exact output"""
-    from fgutils.fgconfig import FGConfig
+E2E_FORMS = ["objs", "dicts-str", "dicts-list", "provider"]
+
+
+def e2e_case(dicts, order, mol, mol_id, rh, envseed, tags, form="objs"):
+    """END-TO-END correspondence: `FGQuery(config=…, require_implicit_hydrogen=rh).get(mol)` of the code against the
+    composed model `C06.fgQueryGetM` (tree builder + adapter + query) — exact output.  form = how the configuration is
+    handed over: list of FGConfig objects (canonical) | list of dictionaries with one-element anti-patterns as plain
+    strings / all anti-patterns as lists | a ready FGConfigProvider — the model always gets the documented meaning"""
+    from fgutils.fgconfig import FGConfig, FGConfigProvider
+    from fgutils.permutation import PermutationMapper
     from fgutils.query import FGQuery
     ordered = [dicts[i] for i in order]
     g = worker_seed.mk_graph(mol)
 
     def real():
-        q = FGQuery(config=[FGConfig(**dict(d)) for d in ordered], require_implicit_hydrogen=rh)
+        if form == "dicts-str":
+            cfg = worker_seed.anti_as(ordered, "str")
+        elif form == "dicts-list":
+            cfg = worker_seed.anti_as(ordered, "list")
+        elif form == "provider":
+            cfg = FGConfigProvider(worker_seed.anti_as(ordered, "str"), mapper=PermutationMapper(wildcard="R", ignore_case=True))
+        else:
+            cfg = [FGConfig(**dict(d)) for d in ordered]
+        q = FGQuery(config=cfg, require_implicit_hydrogen=rh)
         return [[name, [int(i) for i in ids]] for name, ids in q.get(g)]
 
     out = common.call_impl(real)
     req = [Atom("C06"), Atom("e2e"), c07.MAPPER, [e2e_cfg_wire(d) for d in ordered], envseed, common.enc_graph(g), bool(rh)]
     nonempty = isinstance(out, list) and len(out) > 0
-    meta = {"e2e": {"cfgs": dicts, "order": list(order), "mol": mol, "id": mol_id, "require_h": bool(rh), "envseed": envseed}}
+    meta = {"e2e": {"cfgs": dicts, "order": list(order), "mol": mol, "id": mol_id, "require_h": bool(rh), "envseed": envseed, "form": form}}
     t = list(tags) + ["e2e", "e2e:answer-nonempty" if nonempty else ("e2e:raised" if isinstance(out, ImplError) else "e2e:answer-empty"),
-                      "e2e:requireH=%d" % int(bool(rh))]
+                      "e2e:requireH=%d" % int(bool(rh)), "e2e:cfg-form:" + form]
     return Case(req, out, meta=meta, tags=t,
                 nontrivial_key=("e2e", tuple(d["pattern"] for d in ordered), mol_id, bool(rh)) if nonempty else None)
 
@@ -290,8 +431,9 @@ def default_subset_cfgs(rng):
     return part
 
 
-def build_molecules(rng, r, n_gen):
-    """-> [(mol spec, id, tags, digest of the snapshot before any call)]; a molecule the HARNESS cannot build is a
+def build_molecules(rng, r, n_gen, n_rxn=4):
+    """-> [(mol spec, id, tags, digest of the snapshot before any call)], …, {"canon_of": {alternative form -> canonical form},
+    "its": indices of ITS inputs, "odd": indices of odd inputs}; a molecule the HARNESS cannot build is a
     generator refusal (counted); every molecule returned here can be built, so a worker that cannot is a failure"""
     mols = []
     corpus = load_corpus()
@@ -317,20 +459,21 @@ def build_molecules(rng, r, n_gen):
     refused = 0
     seen = set()
     out = []
+    fixed_tags = ("corpus", "explicit-H", "ambiguous-symbol-concatenation", "odd-input", "its-corpus")
 
     def admit(m):
         if m[1] in seen:
-            return False
+            return None
         seen.add(m[1])
         try:
             before = digest(worker_seed.snapshot(worker_seed.mk_graph(m[0])))
         except Exception as e:
-            if "corpus" in m[2] or "explicit-H" in m[2] or "ambiguous-symbol-concatenation" in m[2]:
+            if any(t in m[2] for t in fixed_tags):
                 raise RuntimeError("fixed molecule %r cannot be built: %r" % (m[1], e))
             r.count("generator:molecule-refused:" + type(e).__name__)
-            return False
+            return None
         out.append((m[0], m[1], m[2], before))
-        return True
+        return len(out) - 1
 
     for m in mols:
         admit(m)
@@ -343,7 +486,61 @@ def build_molecules(rng, r, n_gen):
             refused += 1
             continue
         admit(m)
-    return out, refused, len(corpus)
+    # ---- alternative FORM of the input: the SMILES string itself is handed to get (entry point get(str)) -----------
+    canon_of = {}
+    smiles_idx = [i for i, m in enumerate(out) if m[0]["kind"] == "smiles"]
+    for i in [i for i in smiles_idx if "corpus" in out[i][2]][:4] + [i for i in smiles_idx if rng.random() < ALT_SHARE]:
+        spec, mid, tags, _ = out[i]
+        j = admit(({"kind": "string", "s": spec["s"]}, "'%s'@get(str)" % spec["s"],
+                   [t for t in tags if not t.startswith("input:")] + ["input:smiles-string", "alternative-form-of-an-input"]))
+        if j is not None:
+            canon_of[j] = i
+    # ---- the graph as callers really hold it: restored from a JSON document / carrying attributes of their own (lists,
+    #      tuples, dicts on nodes, edges and the graph): same answers, and nothing of it may change
+    for i in [i for i in smiles_idx if rng.random() < ALT_SHARE]:
+        spec, mid, tags, _ = out[i]
+        via = rng.choice(["json", "decorated"])
+        j = admit((dict(spec, via=via), "%s@%s" % (spec["s"], via),
+                   [t for t in tags if not t.startswith("input:")] + ["input:graph-" + ("restored-from-json" if via == "json" else "with-callers-own-attributes"),
+                                                                      "alternative-form-of-an-input"]))
+        if j is not None:
+            canon_of[j] = i
+    # ---- ITS graphs of reactions, in every form in which they reach get --------------------------------------------
+    its_idx = []
+    rxns = [(x, "its-corpus") for x in RXNS]
+    plain_smiles = [out[i][0]["s"] for i in smiles_idx]
+    tries = 0
+    while len(rxns) < len(RXNS) + n_rxn and tries < 20 * n_rxn:
+        tries += 1
+        x = gen_rxn(rng, rng.choice(plain_smiles))
+        if x is not None and x not in [y for y, _ in rxns]:
+            rxns.append((x, "its-generated"))
+    for rsmi, origin in rxns:
+        idx = {}
+        try:
+            worker_seed.mk_graph({"kind": "its", "s": rsmi})
+        except Exception as e:
+            if origin == "its-corpus":
+                raise RuntimeError("fixed reaction %r cannot be built: %r" % (rsmi, e))
+            r.count("generator:reaction-refused:" + type(e).__name__)
+            continue
+        for spec, mid, tags, form in its_mols(rsmi, origin):
+            j = admit((spec, mid, tags))
+            if j is not None:
+                idx[form] = j
+                its_idx.append(j)
+        # same answers expected: the reaction SMILES string and the ITS graph the library builds from it; the list-labelled
+        # graph and the graph restored from JSON
+        if "its-string" in idx and "its-tuple" in idx:
+            canon_of[idx["its-string"]] = idx["its-tuple"]
+        if "its-json" in idx and "its-list" in idx:
+            canon_of[idx["its-json"]] = idx["its-list"]
+    # ---- odd inputs ------------------------------------------------------------------------------------------------
+    odd_idx = []
+    for spec, mid, what in ODD:
+        j = admit((spec, mid, ["odd-input", "odd-input:" + what, "input:" + spec["kind"]]))
+        odd_idx.append(j)
+    return out, refused, len(corpus), {"canon_of": canon_of, "its": its_idx, "odd": odd_idx}
 
 
 def run(tier, seed):
@@ -356,7 +553,9 @@ def run(tier, seed):
     n_mols = 150 if quick else 3000
     per_mol_seeds = len(seeds) if quick else 5
     # ---- molecules ---------------------------------------------------------------------------------
-    mols, refused, n_corpus_mols = build_molecules(rng, r, n_mols)
+    mols, refused, n_corpus_mols, minfo = build_molecules(rng, r, n_mols, n_rxn=4 if quick else 40)
+    canon_of = minfo["canon_of"]
+    its_set, odd_set = set(minfo["its"]), set(minfo["odd"])
     # ---- trees (ordered structure) -----------------------------------------------------------------
     infos = []
     from fgutils.fgconfig import _default_fg_config
@@ -388,11 +587,14 @@ def run(tier, seed):
             continue
     tree_jobs = []
     tree_index = []
+    tree_subs = []
     for li, (info, orders, tags) in enumerate(infos):
+        # the list is submitted in its documented forms, one per order (c07.forms_for); the ORDERED tree must be the model's
+        subs = [f if f["form"] != "direct" else c07.submission("objs") for f in c07.forms_for(info, len(orders), li, rng)]
         for oi, order in enumerate(orders):
-            tree_jobs.append({"op": "tree", "cfgs": None if info.is_default else info.dicts, "order": order,
-                              "direct": False})
+            tree_jobs.append(c07.tree_job(info, order, subs[oi]))
             tree_index.append((li, oi))
+            tree_subs.append(subs[oi])
     # ---- kinds of query objects --------------------------------------------------------------------
     # default configuration under the three mappers and both values of require_implicit_hydrogen
     # (require_implicit_hydrogen=False is the only path on which query.py works on the CALLER's graph: no deepcopy)
@@ -417,72 +619,154 @@ def run(tier, seed):
         mp = rng.choice(["default", "default", "strict", "R-case"])
         for rh in (True, False):
             kinds.append(mk_kind("user%d-%s-%s-H%d" % (k, what, mp, int(rh)), mp, cfgs, rh, tags=["user:" + what]))
+    # configurations that describe bond CHANGES (ITS graphs are their inputs), as a list and as the documentation's single FGConfig
+    kinds.append(mk_kind("its-config-H0", "default", ITS_CFGS, False, tags=["user:its-patterns"]))
+    kinds.append(mk_kind("its-config-H1", "default", ITS_CFGS, True, tags=["user:its-patterns"]))
+    kinds.append(mk_kind("its-single-H0", "default", ITS_CFGS[:1], False, tags=["user:its-patterns"], cfg_form="single"))
+    # ALTERNATIVE FORMS of the same configuration (must give the answers of the canonical kind): every default-config kind
+    # and every user list in one seed-chosen other form
+    n_canon = len(kinds)
+    alt_src = [ki for ki in range(n_canon) if kinds[ki]["cfgs"] is None]
+    by_list = {}
+    for ki in range(n_canon):
+        if kinds[ki]["cfgs"] is not None:
+            by_list.setdefault(json.dumps(kinds[ki]["cfgs"], sort_keys=True), []).append(ki)
+    alt_src += [rng.choice(v) for v in by_list.values()]
+    rot = rng.randrange(20)
+    canon_kind = {}
+    for k, ki in enumerate(alt_src):
+        kinds.append(alt_form_kind(rng, kinds[ki], k + rot))
+        canon_kind[len(kinds) - 1] = ki
     # ---- which molecules each kind is asked ----------------------------------------------------------
     n_sub = 36 if quick else 300
     n_user_mols = 14 if quick else 40
-    fixed = [mi for mi, m in enumerate(mols) if "corpus" in m[2] or "explicit-H" in m[2]]
-    rest = [mi for mi in range(len(mols)) if mi not in set(fixed)]
+    special = its_set | odd_set
+    fixed = [mi for mi, m in enumerate(mols) if mi not in special and ("corpus" in m[2] or "explicit-H" in m[2])]
+    rest = [mi for mi in range(len(mols)) if mi not in special and mi not in set(fixed)]
     expl = [mi for mi, m in enumerate(mols) if "explicit-H" in m[2]]
+    its_list, odd_list = sorted(its_set), sorted(odd_set)
+    rxn_strings = [mi for mi in its_list if mols[mi][0]["kind"] == "string"] + [mi for mi in odd_list if "odd-input:reaction-smiles-unmapped" in mols[mi][2]]
+    its_tuple = [mi for mi in its_list if "its-labels:tuple" in mols[mi][2]]
+
+    def is_odd(ki, mi):
+        """an input on which THIS kind of object raises or leaves its usual path: asked only in the processes that are
+        allowed to see odd inputs (the PURE reference processes never do)"""
+        return mi in odd_set or (mi in its_set and kinds[ki]["require_h"])
+
+    def sample(pop, k):
+        return rng.sample(pop, min(len(pop), k))
+
+    def with_canon(ms):
+        return sorted(set(ms) | {canon_of[mi] for mi in ms if mi in canon_of})
+
     mols_of = {}
     for ki, kd in enumerate(kinds):
+        if ki in canon_kind:
+            continue
+        its_cfg = "user:its-patterns" in kd["tags"]
         if ki == 0:
-            mols_of[ki] = list(range(len(mols)))
+            base = [mi for mi in range(len(mols)) if mi not in special]
         elif kd["cfgs"] is None:
-            pick = rng.sample(fixed, min(len(fixed), n_sub // 2))
-            mols_of[ki] = sorted(set(pick + expl[:4] + rng.sample(rest, min(len(rest), n_sub - len(pick)))))
+            pick = sample(fixed, n_sub // 2)
+            base = pick + expl[:4] + sample(rest, n_sub - len(pick))
+        elif its_cfg:
+            base = sample(fixed, 3) + sample(rest, 3)
         else:
-            pick = rng.sample(fixed, min(len(fixed), n_user_mols // 2))
-            mols_of[ki] = sorted(set(pick + rng.sample(expl, 2) + rng.sample(rest, min(len(rest), n_user_mols - len(pick)))))
-    mixed_default = sorted(set(rng.sample(fixed, min(len(fixed), n_sub // 2)) + rng.sample(rest, min(len(rest), n_sub // 2))))
+            pick = sample(fixed, n_user_mols // 2)
+            base = pick + sample(expl, 2) + sample(rest, n_user_mols - len(pick))
+        # ITS graphs (all forms of a reaction together): normal inputs for a query without hydrogens, odd ones otherwise
+        n_its = len(its_tuple) if kd["id"] == "its-config-H0" else 6 if kd["id"] == "default-noH" else 4 if its_cfg and not kd["require_h"] \
+            else 2 if not kd["require_h"] else 1
+        its_pick = []
+        for t in sample(its_tuple, n_its):
+            rs = mols[t][0]["s"]
+            its_pick += [mi for mi in its_list if mols[mi][0]["s"] == rs]
+        # odd inputs: always one reaction SMILES string, plus a sample of the others
+        odd_pick = [rng.choice(rxn_strings)] + sample(odd_list, len(odd_list) if ki == 0 else 3)
+        mols_of[ki] = with_canon(base + its_pick + odd_pick)
+    for ka, kc in canon_kind.items():
+        normal = [mi for mi in mols_of[kc] if not is_odd(kc, mi)]
+        mols_of[ka] = with_canon(sample(normal, 10 if kinds[kc]["cfgs"] is None else 7) + sample([mi for mi in mols_of[kc] if is_odd(kc, mi)], 1))
+    mixed_default = sorted(set(sample(fixed, n_sub // 2) + sample(rest, n_sub // 2) + [mi for mi in mols_of[0] if is_odd(0, mi)]))
     # ---- processes: (label, hashseed, [job], [key]) ----------------------------------------------------
-    # PURE processes only ever build one kind of query object (the reference); MIXED processes interleave queries on
-    # objects of ALL kinds, the objects being built at their first use, in a seed-dependent order; TREE processes
-    # build the hierarchies.  Every (kind, molecule) must receive the same answers everywhere.
+    # PURE processes only ever build one kind of query object and NEVER see an odd input (the reference); PURE+ODD processes
+    # (default kind, every other hash seed) and MIXED processes get the odd inputs interleaved with the normal molecules on
+    # the same long-lived objects; MIXED processes interleave queries on objects of ALL kinds (incl. the alternative forms),
+    # the objects being built at their first use, in a seed-dependent order; TREE processes build the hierarchies.
+    # Every (kind, molecule) must receive the same answers everywhere.
     procs = []
     t0 = time.time()
-    shards_per_seed = 2 if quick else 1
+    shards_per_seed = 3 if quick else 1
+    default_normal = [mi for mi in mols_of[0] if not is_odd(0, mi)]
+    default_odd = [mi for mi in mols_of[0] if is_odd(0, mi)]
     fresh_home = {mi: rng.randrange(len(seeds)) if quick else (mi - rng.randrange(per_mol_seeds)) % len(seeds)
                   for mi in range(len(mols))}
+
+    def early_trigger(keys, start=0):
+        """move one reaction-SMILES query per kind into the first fifth of the job list (after `start`): the normal
+        molecules that follow it on the same object are the ones a history effect would show on"""
+        seen_k = set()
+        for ki_ in sorted({k[1] for k in keys}):
+            cand = [i for i, k in enumerate(keys) if k[1] == ki_ and k[2] in rxn_strings and i >= start]
+            if not cand or ki_ in seen_k:
+                continue
+            seen_k.add(ki_)
+            i = rng.choice(cand)
+            k = keys.pop(i)
+            keys.insert(rng.randint(start, start + max(1, (len(keys) - start) // 5)), k)
+        return keys
+
     for si, s in enumerate(seeds):
-        mine = [mi for mi in range(len(mols)) if quick or (mi - si) % len(seeds) < per_mol_seeds]
+        mine = [mi for mi in default_normal if quick or (mi - si) % len(seeds) < per_mol_seeds]
         order = list(mine)
         rng.shuffle(order)
+        with_odd = si % 2 == 1
         for sh in range(shards_per_seed):
             part = [mi for k, mi in enumerate(order) if k % shards_per_seed == sh]
+            if with_odd:
+                part += [mi for k, mi in enumerate(default_odd) if k % shards_per_seed == sh]
+                rng.shuffle(part)
+                part = [k[2] for k in early_trigger([("q", 0, mi) for mi in part])]
             # a fresh default object costs a full tree build (~0.3 s): asked for every molecule in one of its processes
             # (its "home" seed) and for a twentieth of the molecules in each of the others
             jobs = [query_job(kinds[0], mols[mi][0], fresh=(fresh_home[mi] == si or rng.random() < 0.05)) for mi in part]
-            procs.append(("pure:default/seed%d/%d" % (s, sh), s, jobs, [("q", 0, mi) for mi in part]))
+            procs.append(("%s:default/seed%d/%d" % ("pure+odd" if with_odd else "pure", s, sh), s, jobs, [("q", 0, mi) for mi in part]))
         tj = [ji for ji in range(len(tree_jobs)) if quick or (ji + si) % 4 == 0]
         procs.append(("trees/seed%d" % s, s, [tree_jobs[ji] for ji in tj], [("tree", ji, None) for ji in tj]))
     for ki, kd in enumerate(kinds):
-        if ki == 0:
-            continue
+        if ki == 0 or ki in canon_kind:
+            continue        # (the alternative forms live in the mixed processes; their reference is the canonical kind)
         cheap = kd["cfgs"] is not None
         for rep in range(1 if quick else 2):
             s = seeds[(ki + 3 * rep) % len(seeds)]
-            part = list(mols_of[ki])
+            part = [mi for mi in mols_of[ki] if not is_odd(ki, mi)]
             rng.shuffle(part)
             jobs = [query_job(kd, mols[mi][0], fresh=cheap or rng.random() < 0.5) for mi in part]
             procs.append(("pure:%s/seed%d" % (kd["id"], s), s, jobs, [("q", ki, mi) for mi in part]))
     n_mixed = len(seeds) if quick else 16
+    mixed_half = {(ki, mi): rng.randrange(2) for ki in range(len(kinds)) for mi in mols_of[ki]}
     for j in range(n_mixed):
         s = seeds[j % len(seeds)]
-        pairs = [(ki, mi) for ki in range(1, len(kinds)) for mi in mols_of[ki]] + [(0, mi) for mi in mixed_default]
+        # every (kind, input) pair is asked in every other mixed process (its own half of them), the odd inputs in all of them
+        pairs = [(ki, mi) for ki in range(1, len(kinds)) for mi in mols_of[ki] if is_odd(ki, mi) or mixed_half[(ki, mi)] == j % 2] + \
+                [(0, mi) for mi in mixed_default if is_odd(0, mi) or mixed_half[(0, mi)] == j % 2]
         rng.shuffle(pairs)
         # the first queries: one per kind, in a random order of the kinds -> the long-lived objects are BUILT in that order
         first = list(range(len(kinds)))
         rng.shuffle(first)
         head = []
         for ki in first:
-            k = next(i for i, p_ in enumerate(pairs) if p_[0] == ki)
-            head.append(pairs.pop(k))
-        pairs = head + pairs
-        jobs = [query_job(kinds[ki], mols[mi][0], fresh=(kinds[ki]["cfgs"] is not None or rng.random() < 0.12)) for ki, mi in pairs]
+            k = next((i for i, p_ in enumerate(pairs) if p_[0] == ki), None)
+            if k is not None:
+                head.append(pairs.pop(k))
+        keys = early_trigger([("q", ki, mi) for ki, mi in head + pairs], start=len(head))
+        pairs = [(k[1], k[2]) for k in keys]
+        jobs = [query_job(kinds[ki], mols[mi][0], fresh=(kinds[ki]["cfgs"] is not None or rng.random() < 0.05)) for ki, mi in pairs]
         procs.append(("mixed%d/seed%d" % (j, s), s, jobs, [("q", ki, mi) for ki, mi in pairs]))
     order_p = sorted(range(len(procs)), key=lambda i: -sum(3 if (j.get("fresh") and j.get("cfgs") is None) else 1 for j in procs[i][2]))
     results = c07.run_workers([(procs[i][1], procs[i][2]) for i in order_p])
     r.notes["worker_wall_s"] = round(time.time() - t0, 1)
+    r.extra_cov["slowest_worker_processes_(s, hashseed, jobs)"] = sorted(c07.LAST_TIMES, reverse=True)[:8]
     by_q = {}
     by_tree = {}
     for i, res in zip(order_p, results):
@@ -496,18 +780,49 @@ def run(tier, seed):
     cases = []
     where = {}
     setup_failed = 0
+    runs_of = {}
     for ki, kd in enumerate(kinds):
         for mi in mols_of[ki]:
             mol, mol_id, tags, before = mols[mi]
             runs = sorted(by_q.get((ki, mi), []), key=lambda x: x[2])
-            c, sigs = det_case(mol, mol_id, tags, [(s_, one, label) for s_, one, label, _, _ in runs], before, kd)
+            runs_of[(ki, mi)] = runs
+            t = list(tags) + (["odd-for-this-kind-of-object"] if is_odd(ki, mi) else [])
+            c, sigs = det_case(mol, mol_id, t, [(s_, one, label) for s_, one, label, _, _ in runs], before, kd)
             setup_failed += sum(1 for x in runs if "same1" not in x[1])
             where[id(c)] = [(label, s_, pi, pos, sig) for (s_, _, label, pi, pos), sig in zip(runs, sigs)]
             cases.append(c)
+    # an alternative FORM of an input / of a configuration must give the answers of the canonical form
+    n_forms = {"input": 0, "configuration": 0}
+
+    def add_forms(what, key_a, key_b, tags):
+        ra, rb = runs_of.get(key_a), runs_of.get(key_b)
+        if not ra or not rb:
+            return
+        kd_a, kd_b = kinds[key_a[0]], kinds[key_b[0]]
+        a_id = "%s | kind=%s" % (mols[key_a[1]][1], kd_a["id"])
+        b_id = "%s | kind=%s" % (mols[key_b[1]][1], kd_b["id"])
+        c, sigs = forms_case(what, a_id, b_id, [(s_, one, l) for s_, one, l, _, _ in ra], [(s_, one, l) for s_, one, l, _, _ in rb], tags,
+                             {"canonical_query": {"kind": {k: kd_a.get(k) for k in KIND_KEYS}, "mol": mols[key_a[1]][0]},
+                              "alternative_query": {"kind": {k: kd_b.get(k) for k in KIND_KEYS}, "mol": mols[key_b[1]][0]}})
+        where[id(c)] = [(label, s_, pi, pos, sig) for (s_, _, label, pi, pos), sig in zip(list(ra) + list(rb), sigs)]
+        cases.append(c)
+        n_forms[what] += 1
+
+    for ki in range(len(kinds)):
+        for mi in mols_of[ki]:
+            if mi in canon_of and canon_of[mi] in mols_of[ki]:
+                add_forms("input", (ki, canon_of[mi]), (ki, mi), [t for t in mols[mi][2] if t.startswith("input:") or t == "its"] + kinds[ki]["tags"])
+    for ka, kc in canon_kind.items():
+        for mi in mols_of[ka]:
+            if mi in mols_of[kc]:
+                add_forms("configuration", (kc, mi), (ka, mi), [t for t in mols[mi][2] if t.startswith("input:")] + kinds[ka]["tags"])
     for ji, (li, oi) in enumerate(tree_index):
         info, orders, tags = infos[li]
         if ji in by_tree:
-            cases += tree_cases(info, orders[oi], by_tree[ji], envseed=ji % 7, tags=tags)
+            tcs = tree_cases(info, orders[oi], by_tree[ji], envseed=ji % 7, tags=set(tags) | c07.form_tags(info, tree_subs[ji]))
+            for c in tcs:
+                c.meta["submitted_as"] = tree_subs[ji]
+            cases += tcs
     # ---- end to end: real FGQuery(config=…).get against the composed model (sample per run) ----------
     n_lists, n_per = (8, 4) if quick else (60, 8)
     e2e_plans = [(list(_default_fg_config), {"default-list"}, 2 * n_per)]
@@ -518,18 +833,21 @@ def run(tier, seed):
     for cfgs, what in user_lists[:3 if quick else 12]:
         e2e_plans.append((cfgs, {"user:" + what}, n_per))
     e2e_built = 0
+    graph_inputs = [mi for mi, m in enumerate(mols) if mi not in special and m[0]["kind"] in ("smiles", "pattern", "graph") and not m[0].get("via")]
     n_corpus = n_corpus_mols if not quick else 12
     for dicts, tags, k in e2e_plans:
         # the default list is asked the corpus molecules first (sibling ties: the witnesses of F4), then random ones
         picks = list(range(min(n_corpus, len(mols)))) if "default-list" in tags else []
-        picks += [rng.randrange(len(mols)) for _ in range(k)]
+        picks += [rng.choice(graph_inputs) for _ in range(k)]
         for mi in picks:
             mol, mol_id, _t, _b = mols[mi]
             order = list(range(len(dicts)))
             if rng.random() < 0.5:
                 rng.shuffle(order)
+            # the configuration in one of its alternative forms for about a third of the cases (each ~ ALT_SHARE)
+            form = rng.choice(E2E_FORMS[1:]) if rng.random() < 3 * ALT_SHARE * 0.8 else "objs"
             # (an exception here is the harness' own: it propagates and the run exits 2 — never a silently missing case)
-            cases.append(e2e_case(dicts, order, mol, mol_id, rng.random() < 0.7, rng.randrange(0, 7), sorted(tags)))
+            cases.append(e2e_case(dicts, order, mol, mol_id, rng.random() < 0.7, rng.randrange(0, 7), sorted(tags), form))
             e2e_built += 1
     outs = r.evaluate(cases)
     for o in r.spec_failures:
@@ -555,7 +873,8 @@ def run(tier, seed):
     r.extra_cov.update({
         "ordered_trees_not_sorted_by_the_models_key": order_contract,
         "hash_seeds": seeds, "molecules": len(mols), "kinds_of_query_objects": [k["id"] for k in kinds],
-        "worker_processes": {"pure (one kind of object only)": sum(1 for p_ in procs if p_[0].startswith("pure")),
+        "worker_processes": {"pure (one kind of object only, never an odd input: the reference)": sum(1 for p_ in procs if p_[0].startswith("pure:")),
+                             "pure+odd (default kind, odd inputs interleaved)": sum(1 for p_ in procs if p_[0].startswith("pure+odd")),
                              "mixed (all kinds interleaved, seed-dependent construction order)": sum(1 for p_ in procs if p_[0].startswith("mixed")),
                              "trees": sum(1 for p_ in procs if p_[0].startswith("trees"))},
         "(kind, molecule)_cases": sum(len(v) for v in mols_of.values()),
@@ -565,6 +884,12 @@ def run(tier, seed):
         "runs_with_a_user_configuration": sum(1 for (ki, _), v in by_q.items() if kinds[ki]["cfgs"] is not None for _ in v),
         "runs_with_a_non_default_mapper": sum(1 for (ki, _), v in by_q.items() if kinds[ki]["mapper"] is not None for _ in v),
         "smiles_refused_by_rdkit": refused,
+        "inputs_by_form": {k: sum(1 for m in mols if k in m[2]) for k in sorted({t for m in mols for t in m[2] if t.startswith("input:") or t.startswith("its-labels:") or t.startswith("odd-input:")})},
+        "(kind, input)_runs_on_odd_inputs": sum(len(v) for (ki, mi), v in by_q.items() if is_odd(ki, mi)),
+        "(kind, input)_runs_on_ITS_graphs_without_hydrogens": sum(len(v) for (ki, mi), v in by_q.items() if mi in its_set and not kinds[ki]["require_h"]),
+        "cases_alternative_form_of_the_input_vs_canonical_form": n_forms["input"],
+        "cases_alternative_form_of_the_configuration_vs_canonical_form": n_forms["configuration"],
+        "kinds_that_are_alternative_forms": {kinds[ka]["id"]: kinds[kc]["id"] for ka, kc in canon_kind.items()},
         "worker_setup_failures_(each_fails_its_case)": setup_failed, "tree_jobs": len(tree_jobs),
         "model_trees_depending_on_the_set_order_parameter": env_dep, "worker_wall_s": r.notes["worker_wall_s"],
     })
@@ -588,7 +913,13 @@ def run(tier, seed):
     return r.finish(
         level="proof",
         rule="molecules: corpus (incl. every witness of F4/K3) + explicit-H graphs + ambiguous symbol concatenations + generated SMILES (O=C(X)Y family on which sibling groups tie; chains with functional groups), "
-             "given as RDKit graphs, parser graphs with id offsets, or graphs with sparse shuffled ids. Query objects of several KINDS = construction parameters of FGQuery: default collection under the mappers "
+             "given as RDKit graphs, parser graphs with id offsets, graphs with sparse shuffled ids, or — alternative forms, ~15% of the SMILES inputs each — as the SMILES STRING itself (input:smiles-string) and as graphs restored from a JSON document / carrying attributes of the caller's own (lists, tuples, dicts on nodes, edges, graph); "
+             "ITS graphs of mapped reactions (fixed + generated by breaking/forming one bond) built by the library's get_its, with (g,h) bond labels as tuples, as lists, restored from JSON, and as the reaction SMILES string; "
+             "ODD inputs (reaction SMILES on hydrogen-requiring queries, invalid/empty SMILES, empty graph, non-graph values, graphs without symbol/bond labels, ITS graphs on hydrogen-requiring queries) interleaved with the normal "
+             "molecules on the long-lived objects of the MIXED and PURE+ODD processes only — an exception is that input's answer, and the normal molecules must be answered as in the PURE processes that never saw an odd input. "
+             "TYPE-SENSITIVE snapshots (list vs tuple vs numpy scalar; graph class, node order, node attributes, adjacency order, edge attributes, graph attributes) around every call. "
+             "Configurations in every documented FORM (list of FGConfig | list of dicts with anti-patterns as lists / one-element ones as plain strings | ready FGConfigProvider | single FGConfig | positional arguments | the default "
+             "collection named explicitly): every default-config kind and every user list additionally as a kind in a seed-chosen other form; `forms` cases demand the answers of the canonical form for alternative forms of inputs and configurations. Query objects of several KINDS = construction parameters of FGQuery: default collection under the mappers "
              "default / PermutationMapper(wildcard=None, ignore_case=True) / PermutationMapper(wildcard='R', ignore_case=False), each with require_implicit_hydrogen True and (default, strict) False; "
              "user configurations (parts of the default collection, lists with effective anti-patterns, generated lists; explicit group_atoms) under a seed-chosen mapper with require_implicit_hydrogen True and False. "
              "Every (kind, molecule) is asked twice on a long-lived object and (always for user configurations, for a seed-chosen part otherwise, at least once per molecule) on a freshly built object, "
@@ -612,39 +943,72 @@ def replay(path):
     if not prepare(r, PROOFS, "C06"):
         return 2
     seeds = meta.get("hashseeds") or [0, 1, 2, 3, 4]
-    if "mol" in meta:
-        k = meta.get("kind") or {}
-        kind = mk_kind(k.get("id", "default"), k.get("mapper_name", "default"), k.get("cfgs"), k.get("require_h", True))
+
+    def show(kind_id, per):
+        for s, x, label in per:
+            print("replay: kind=%s %s PYTHONHASHSEED=%s same1=%s same2=%s fresh=%s untouched=%s%s%s" % (
+                kind_id, label, s, x.get("same1"), x.get("same2"), x.get("fresh"),
+                "same1" in x and x.get("before") == x.get("after1") == x.get("after2") and x.get("fresh_before") == x.get("fresh_after"),
+                "" if not x.get("changed") else " CHANGED: %s" % x.get("changed"),
+                "" if "same1" in x else " SETUP FAILED: %s" % x))
+
+    def rerun_histories(hs):
+        # re-run, in fresh interpreters under the recorded hash seeds, everything the recorded processes were asked
+        # up to the failing query (one process per distinct answer); the last answer of each is the one compared
+        res = c07.run_workers([(h["hashseed"], h["jobs"]) for h in hs])
+        for h, x in zip(hs, res):
+            odd_before = [j["mol"] for j in h["jobs"][:-1] if j.get("op") == "query" and j.get("obj") == h["jobs"][-1].get("obj")
+                          and j["mol"].get("kind") in ("string", "value", "empty", "its")]
+            print("replay: process %s (PYTHONHASHSEED=%s, %d earlier jobs, objects built before: %s; unusual inputs asked of the same object before: %s)" % (
+                h["process"], h["hashseed"], len(h["jobs"]) - 1, x[-1].get("objects_built_before"), odd_before[:6]))
+        return [(h["hashseed"], x[-1], h["process"], h["jobs"][-1]) for h, x in zip(hs, res)]
+
+    if "forms" in meta:
+        qa, qb = meta["canonical_query"], meta["alternative_query"]
+        ka, kb = kind_from_meta(qa["kind"]), kind_from_meta(qb["kind"])
+        same = lambda job, q: job.get("obj") == q["kind"]["id"] and job.get("mol") == q["mol"]
+        if meta.get("histories"):
+            rr = rerun_histories(meta["histories"])
+            runs_a = [(s, x, l) for s, x, l, job in rr if same(job, qa)]
+            runs_b = [(s, x, l) for s, x, l, job in rr if not same(job, qa)]
+        else:
+            runs_a = runs_b = []
+        ss = sorted(set(seeds))[:3]
+        if not runs_a:
+            res = c07.run_workers([(s, [query_job(ka, qa["mol"], True)]) for s in ss])
+            runs_a = [(s, x[0], "canonical/single-job/seed%s" % s) for s, x in zip(ss, res)]
+        if not runs_b:
+            res = c07.run_workers([(s, [query_job(kb, qb["mol"], True)]) for s in ss])
+            runs_b = [(s, x[0], "alternative/single-job/seed%s" % s) for s, x in zip(ss, res)]
+        print("replay: canonical form   : %s" % meta.get("canonical"))
+        show(ka["id"], runs_a)
+        print("replay: alternative form : %s" % meta.get("alternative"))
+        show(kb["id"], runs_b)
+        c, _ = forms_case(meta["forms"], meta.get("canonical"), meta.get("alternative"), runs_a, runs_b, ["replay"],
+                          {"canonical_query": qa, "alternative_query": qb})
+        r.evaluate([c])
+    elif "mol" in meta:
+        kind = kind_from_meta(meta.get("kind"))
         before = digest(worker_seed.snapshot(worker_seed.mk_graph(meta["mol"])))
         if meta.get("histories"):
-            # re-run, in fresh interpreters under the recorded hash seeds, everything the recorded processes were asked
-            # up to the failing query (one process per distinct answer); the last answer of each is the one compared
-            hs = meta["histories"]
-            res = c07.run_workers([(h["hashseed"], h["jobs"]) for h in hs])
-            per = [(h["hashseed"], x[-1], h["process"]) for h, x in zip(hs, res)]
-            for h, x in zip(hs, res):
-                print("replay: process %s (PYTHONHASHSEED=%s, %d earlier jobs, objects built before: %s)" % (
-                    h["process"], h["hashseed"], len(h["jobs"]) - 1, x[-1].get("objects_built_before")))
+            per = [(s, x, l) for s, x, l, _ in rerun_histories(meta["histories"])]
         else:
             job = query_job(kind, meta["mol"], True)
             res = c07.run_workers([(s, [job]) for s in sorted(set(seeds))])
             per = [(s, x[0], "single-job/seed%s" % s) for s, x in zip(sorted(set(seeds)), res)]
-        for s, x, label in per:
-            print("replay: kind=%s %s PYTHONHASHSEED=%s same1=%s same2=%s fresh=%s untouched=%s%s" % (
-                kind["id"], label, s, x.get("same1"), x.get("same2"), x.get("fresh"),
-                "same1" in x and x.get("before") == x.get("after1") == x.get("after2") and x.get("fresh_before") == x.get("fresh_after"),
-                "" if "same1" in x else " SETUP FAILED: %s" % x))
+        show(kind["id"], per)
         c, _ = det_case(meta["mol"], meta["id"], ["replay"], per, before, kind)
         r.evaluate([c])
     elif "e2e" in meta:
         e = meta["e2e"]
-        c = e2e_case(e["cfgs"], e["order"], e["mol"], e["id"], e["require_h"], e["envseed"], ["replay"])
+        c = e2e_case(e["cfgs"], e["order"], e["mol"], e["id"], e["require_h"], e["envseed"], ["replay"], e.get("form", "objs"))
         for o in r.evaluate([c]):
-            print("replay: end-to-end order=%s mol=%s requireH=%s\n  impl=%s\n  model=%s extras=%s" % (
-                e["order"], e["id"], e["require_h"], common.sx_of(o.impl_c), common.sx_of(o.model), common.sx_of(o.extra)))
+            print("replay: end-to-end order=%s mol=%s requireH=%s configuration given as %s\n  impl=%s\n  model=%s extras=%s" % (
+                e["order"], e["id"], e["require_h"], e.get("form", "objs"), common.sx_of(o.impl_c), common.sx_of(o.model), common.sx_of(o.extra)))
     elif "order" in meta:
         info = c07.ListInfo(meta.get("cfgs"))
-        job = {"op": "tree", "cfgs": meta.get("cfgs"), "order": meta["order"], "direct": False}
+        job = c07.tree_job(info, meta["order"], meta.get("submitted_as") or c07.submission("objs"))
+        print("replay: list submitted as %s" % (meta.get("submitted_as"),))
         runs = [(s, [job]) for s in seeds for _ in range(2)]
         res = c07.run_workers(runs)
         cases = tree_cases(info, meta["order"], [(s, x[0]) for (s, _), x in zip(runs, res)], 0, {"replay"})
